@@ -11,7 +11,7 @@ import tempfile
 MODULES = ["error", "format", "token", "term", "de_bruijn", "evaluator", "parser"]
 TARGET_OF = {"step_strict": "step", "evaluate": "step"}
 KNOWN = {"signed_shift", "unsigned_shift", "open", "free_variables", "is_value", "step",
-         "reassociate_applications", "reassociate_products_and_quotients", "reassociate_sums_and_differences", "packrat_complete", "resolve"}
+         "reassociate_applications", "reassociate_products_and_quotients", "reassociate_sums_and_differences", "packrat_complete", "resolve", "pipeline"}
 PACKRAT_COUNT = 25000   # each case runs an exhaustive derivation search over grammar.y: about 1 ms
 
 
@@ -37,7 +37,7 @@ def run_targets(binary, targets, seed, count, repo="/repo"):
     for t in targets:
         try:
             cmd = [binary, t, str(seed), str(count)]
-            if t.startswith("packrat"):
+            if t.startswith("packrat") or t == "pipeline":
                 g = os.path.join(repo, "grammar.y")
                 cmd = [binary, t, str(seed), str(min(count, PACKRAT_COUNT)), g if os.path.exists(g) else "/repo/grammar.y"]
             r = subprocess.run(cmd, capture_output=True, text=True, timeout=600)
@@ -56,6 +56,8 @@ def search(prop, failed, repo, verif, seed=1, count=300000):
         if f.get("name", "").startswith("packrat/") or (f.get("name", "").startswith("pipeline/") and prop == "C07"):
             # any obligation of the recogniser unit (or of the parse() glue): real parse_term / parse() vs the derivations of grammar.y
             t = "packrat_complete"
+        if f.get("name", "").startswith("pipeline/") and prop == "C08":
+            t = "pipeline"
         if f.get("name", "").startswith("resolve/"):
             # any obligation of the resolution unit: real resolve_variables vs the transcription of resolve / scoped
             t = "resolve"
@@ -101,6 +103,7 @@ def sanity(repo, verif, targets, seed=1, count=100000):
         todo = list(targets) + ["bigint_contract"]
         if "resolve_variables" in targets:
             todo.append("resolve")
+            todo.append("pipeline")
         if any(t.startswith("parse_") for t in targets):
             # recogniser unit: soundness/tree AND (not covered by any contract) completeness, on random sentences + near misses
             todo.append("packrat_complete")
@@ -110,7 +113,7 @@ def sanity(repo, verif, targets, seed=1, count=100000):
                 continue
             try:
                 cmd = [binary, t2, str(seed), str(count)]
-                if t2.startswith("packrat"):
+                if t2.startswith("packrat") or t2 == "pipeline":
                     g = os.path.join(repo, "grammar.y")
                     cmd = [binary, t2, str(seed), str(PACKRAT_COUNT), g if os.path.exists(g) else "/repo/grammar.y"]
                 r = subprocess.run(cmd, capture_output=True, text=True, timeout=900)
@@ -135,6 +138,8 @@ def stand_in(prop, fns, units_undecided, repo, verif, seed=1, count=300000):
             t = "resolve"
         if t in KNOWN and t not in targets:
             targets.append(t)
+    if prop == "C08" and "parse" in fns:
+        targets.append("pipeline")
     if not targets:
         return None
     scratch = tempfile.mkdtemp(prefix="gramwit.", dir="/var/tmp")
